@@ -230,6 +230,15 @@ theorem C01_ready_sound {c : Conf} (h : Reach C O st0 script picks c) (hd : c.pc
   · exact absurd h1 hf
   · exact h1
 
+/-- **nothing of the last advertisement is lost**: when the initiator reports success, every
+child element of the last features list (`c.curAdv`) that names a configured feature `f` is
+accounted for in what `C01_ready_sound` ranges over: the cache slot of `f`'s namespace is
+filled (by `f`, or by a later feature of the same namespace — the code keys by namespace), or
+`f` is in the skipped list -/
+theorem C01_list_complete {c : Conf} (h : Reach C O st0 script picks c) (hd : c.pc = .done)
+    (hs : c.srv = false) : Covered C c c.curAdv :=
+  (invK_reach h).afterK (by rw [hd]; rfl) hs
+
 /-! ### voluntary before mandatory -/
 
 /-- **voluntary first**: whenever the initiator's selection loop negotiates a mandatory entry
